@@ -1,6 +1,7 @@
 package main
 
 import (
+	"runtime"
 	"os"
 	"sort"
 	"fmt"
@@ -356,7 +357,22 @@ func (e *Engine) VerifyFunc(key string) *FuncResult {
 	return r2
 }
 
-func (e *Engine) verifyFuncPass(key string, pass int, proved map[string]bool) *FuncResult {
+// verifyFuncPass never lets an internal error of the verifier take a whole check down: a function on which the
+// generator fails (a Go runtime error outside the per-statement net of execStmt) is reported as outside the supported
+// subset - UNDECIDED, the witness family is searched - like any other construct it does not model.
+func (e *Engine) verifyFuncPass(key string, pass int, proved map[string]bool) (res *FuncResult) {
+	defer func() {
+		if r := recover(); r != nil {
+			if _, ok := r.(runtime.Error); !ok {
+				panic(r)
+			}
+			res = &FuncResult{Key: key, Unsupported: []string{fmt.Sprintf("%s: internal error of the verifier while generating obligations (%v)", key, r)}}
+		}
+	}()
+	return e.verifyFuncPass0(key, pass, proved)
+}
+
+func (e *Engine) verifyFuncPass0(key string, pass int, proved map[string]bool) *FuncResult {
 	spec := e.Contracts.Funcs[key]
 	fi := e.Funcs[key]
 	res := &FuncResult{Key: key}
